@@ -11,6 +11,50 @@ TB = ("Trusted: Lean 4.33 kernel; axioms of every property theorem printed per r
       "lxml/libxml2 and CPython are modelled, not verified. ")
 
 CLAIMED = {
+    "C01": dict(
+        text="Proof: delb's text-node mechanism (TextNode objects chained on lxml's text/tail slots; DATA/TAIL/APPENDED cases "
+             "of _add_following_sibling, _add_preceding_sibling, _add_next_element_wrapping_node, _prepend_text_node, "
+             "_insert_text_node_as_next_appended, both detach methods, __add_first_child, content assignment, "
+             "merge_text_nodes, clone) is modelled in Lean (Model/Edit.lean) next to a plain ordered tree with node identities; "
+             "proved: every mechanism step refines the list splice on the abstracted tree (c01_step), lifted to all histories "
+             "(c01_history), errors agree, merge/clone refine their specifications, and moving nodes permutes the text nodes "
+             "without loss (c01_no_text_lost). Tie to code: random histories of public API calls on real documents; after every "
+             "call the real forest with object identities as handles == compiled mechanism model == Lean spec == independent "
+             "Python plain-tree mirror.",
+        note=TB + "Legal edits only (non-empty text payloads, no cycles, offered nodes detached; rejections are C09); no ambient "
+             "filters; all nodes referenced and the cyclic collector off during a history (C04 covers collection). Composite API "
+             "calls are expanded in the driver into single-node steps as the Python methods compose them. Recorded findings "
+             "outside this guard: empty text payloads, attributes of nodes moved across default-namespace scopes.",
+        technique="Lean 4 refinement theorem (mechanism model -> plain tree spec, induction over paths and histories) + differential correspondence on edit histories",
+        design="3/C01",
+    ),
+    "C02": dict(
+        text="Proof: the plain Serializer (prefix collection, declarations, _serialize_tag/serialize_node, attribute sorting, "
+             "escaping) emits markup tokens in the Lean model (Model/Serialize.lean); proved: escaping leaves no markup "
+             "character and is undone by entity resolution (tables regenerated from /repo), and for every serializable tree, "
+             "every accepted caller mapping and every iteration order of the namespace sets a namespace-aware tree builder "
+             "rebuilds the emitted tokens into the original tree with text merged (c02_serialize_roundtrip, composing C13). "
+             "Tie to code: TagNode.serialize(namespaces=...) string == render of the model's tokens exactly, Namespaces "
+             "normalisation == model, and the implementation's output re-read with delb and lxml equals the original tree.",
+        note=TB + "Tokenisation of the output string into tags/attributes/character data is lxml's (checked per case by "
+             "re-parsing). Documented exclusions: CR in text, TAB/LF/CR in attribute values. Unprefixed attributes are read as "
+             "delb documents it (default namespace in scope).",
+        technique="Lean 4 theorems (escape round trip, token-level serialize/build round trip) + translator-generated tables + differential correspondence",
+        design="3/C02",
+    ),
+    "C13": dict(
+        text="Proof: Serializer._collect_prefixes with __redeclare_empty_prefix and _new_namespace_declaration, "
+             "Namespaces.__normalize_declarations/lookup_prefix and the declaration emission of serialize_root are modelled in "
+             "Lean; proved for every tree, every accepted caller mapping and every iteration order of the per-node namespace "
+             "sets: the code's assertions are unreachable, every namespace gets exactly one prefix, different namespaces "
+             "different prefixes, the empty namespace only the empty prefix, caller-bound namespaces keep the caller's prefix, "
+             "xml/xmlns are never declared, declarations sit on the outermost element only. Tie to code: declared prefixes "
+             "found in the real output vs the model's prefix map; invalid mappings rejected alike; C13 oracle on every output.",
+        note=TB + "Fewer than 65536 generated prefixes; the iteration order of Python sets is an oracle input (observed order "
+             "passed to the model, theorems quantify over all orders).",
+        technique="Lean 4 invariant proof over the prefix fold (all orders) + differential correspondence",
+        design="3/C13",
+    ),
     "C16": dict(
         text="Proof: tokenizer.py, parser.py and the validating AST constructors are modelled line by line in Lean "
              "(Model/XPath/Tokenizer.lean, Parser.lean) with an explicit `.pyError` outcome at every Python index/lookup/assert "
